@@ -40,6 +40,32 @@ ALLOWED_AXIOMS = {
 }
 
 
+import contextlib, fcntl
+
+
+@contextlib.contextmanager
+def build_lock():
+    """serialises the phases that rewrite shared build products (coq .vo files, coq/Generated, the extracted driver)
+    between concurrent runs of ./check; re-entrant within one process"""
+    if getattr(build_lock, "depth", 0) > 0:
+        build_lock.depth += 1
+        try:
+            yield
+        finally:
+            build_lock.depth -= 1
+        return
+    os.makedirs(BUILD, exist_ok=True)
+    f = open(os.path.join(BUILD, "lock"), "w")
+    fcntl.flock(f, fcntl.LOCK_EX)
+    build_lock.depth = 1
+    try:
+        yield
+    finally:
+        build_lock.depth = 0
+        fcntl.flock(f, fcntl.LOCK_UN)
+        f.close()
+
+
 def log(*a):
     print(*a, file=sys.stderr, flush=True)
 
@@ -208,7 +234,7 @@ def parse_assumptions(output):
     return blocks
 
 
-def coq_check(prop_file, timeout=1500):
+def _coq_check_unlocked(prop_file, timeout=1500):
     """builds everything Properties/<prop_file> needs, then re-checks that file itself with output.
     returns dict(ok, obligations, discharged, theorems, assumptions, log, failed_target)"""
     ensure_makefile()
@@ -255,8 +281,13 @@ def coq_check(prop_file, timeout=1500):
     res["ok"] = True
     return res
 
+def coq_check(prop_file, timeout=1500):
+    with build_lock():
+        return _coq_check_unlocked(prop_file, timeout)
 
-def coqchk(prop_file, timeout=3000):
+
+
+def _coqchk_unlocked(prop_file, timeout=3000):
     """independent re-check of the compiled property file and everything it depends on (coqchk -o);
     returns dict(ok, axioms, problem)"""
     modname = "GQ." + prop_file[:-2].replace("/", ".")
@@ -280,6 +311,11 @@ def coqchk(prop_file, timeout=3000):
         return res
     res["ok"] = True
     return res
+
+def coqchk(prop_file, timeout=3000):
+    with build_lock():
+        return _coqchk_unlocked(prop_file, timeout)
+
 
 
 # --------------------------------------------------------------------------------------
@@ -315,7 +351,7 @@ def build_harness(pkg, binname, profile="debug"):
 _driver_cache = {}
 
 
-def build_driver():
+def _build_driver_unlocked():
     """generates coq/Extract.v from the stream registry, extracts the models and compiles ocaml/driver.ml"""
     if "drv" in _driver_cache:
         return _driver_cache["drv"]
@@ -339,12 +375,18 @@ def build_driver():
         if rc != 0:
             raise RuntimeError("extraction failed:\n" + out[-4000:])
         shutil.copy(os.path.join(ROOT, "ocaml", "driver.ml"), os.path.join(odir, "driver.ml"))
-        rc, out = sh("ocamlfind ocamlopt -w -a model.mli model.ml streams.ml driver.ml -o driver 2>&1", cwd=odir, timeout=900)
+        rc, out = sh("ocamlfind ocamlopt -w -a model.mli model.ml streams.ml driver.ml -o driver.new 2>&1", cwd=odir, timeout=900)
         if rc != 0:
             raise RuntimeError("ocaml build failed:\n" + out[-4000:])
+        os.replace(os.path.join(odir, "driver.new"), drv)      # a running driver keeps its old inode
         open(stamp, "w").write("ok")
     _driver_cache["drv"] = drv
     return drv
+
+def build_driver():
+    with build_lock():
+        return _build_driver_unlocked()
+
 
 
 # --------------------------------------------------------------------------------------
@@ -566,7 +608,7 @@ def _coq_args(toks):
     return "[" + "; ".join(out) + "]"
 
 
-def kernel_eval(stream, cases, model_out, timeout=600, max_tokens=4000):
+def _kernel_eval_unlocked(stream, cases, model_out, timeout=600, max_tokens=4000):
     """Evaluates the Gallina run function of `stream` INSIDE Coq (vm_compute, checked by the kernel through
     `reflexivity`/Qed) on the given cases and compares with what the extracted OCaml driver printed: ties the
     extraction + OCaml driver to the definitions the theorems are about.
@@ -638,6 +680,11 @@ def kernel_eval(stream, cases, model_out, timeout=600, max_tokens=4000):
         except OSError:
             pass
     return n, bad, problem
+
+def kernel_eval(stream, cases, model_out, timeout=600, max_tokens=4000):
+    with build_lock():
+        return _kernel_eval_unlocked(stream, cases, model_out, timeout, max_tokens)
+
 
 
 def shrink(spec, case, still_bad, profile="debug", rounds=40):
